@@ -17,7 +17,7 @@ PROPERTY = 'C19'
 LEVEL = 'exploration'
 RULE = ('seeded scenarios: 1..4 queued messages drawn from {quote, backslash, '
         'slash, LF, CR, TAB, NUL, U+2028, U+2029, U+0085, non-ASCII, non-BMP, '
-        '</script>, JSON values, binary} x Accept-Encoding(14 shapes) x '
+        '</script>, JSON values, binary} x Accept-Encoding(19 shapes incl. malformed q-values) x '
         'http_compression(2) x threshold in {0, size-1, size, size+1, 10^6} '
         '(size measured by a dry run) x JSONP index {none, 0, 7, 10^9} x '
         'response kind {open, poll} x server(2), each on a fresh server; '
@@ -38,7 +38,8 @@ SHARD_TIMEOUT = {'quick': 300, 'thorough': 3000}
 
 AE = [None, 'gzip', 'deflate', 'gzip, deflate', 'deflate, gzip',
       'gzip;q=0.5', 'gzip;q=0', 'br', 'br, gzip', ' gzip ', '*', 'GZIP',
-      'identity', 'deflate;q=0, gzip']
+      'identity', 'deflate;q=0, gzip', 'gzip;q=high', 'gzip;q=',
+      'deflate;q', 'gzip; q=1.0', 'gzip;q=0.000, deflate;q=0.001']
 CHARS = {'quote': '"', 'bslash': '\\', 'slash': '/', 'lf': '\n', 'cr': '\r',
          'tab': '\t', 'nul': '\x00', 'ls': '\u2028', 'ps': '\u2029',
          'nel': '\x85', 'latin': 'é', 'astral': '😀', 'script': '</script>',
